@@ -3,7 +3,7 @@ import numpy as np
 import rowan
 
 import gen
-from common import L, ModelRaise, exc_kind
+from common import read_shuffled, L, ModelRaise, exc_kind
 
 RULE = ("simple polygons from gen.polygon2d (star/comb/spiral/lattice/convex/rect/triangle/reflex-first-corner, 3-40 "
         "vertices on a 1/64 grid) x {ccw, cw} x {default, explicit same, explicit opposite normal} x {xy-plane, random "
@@ -44,14 +44,17 @@ def eval_case(ctx, case):
     Ls = d + float(np.linalg.norm(v_in.mean(axis=0)))
     try:
         p = build(case)
-        obs = {
-            "signed_area": float(p.signed_area), "area": float(p.area), "perimeter": float(p.perimeter),
-            "centroid": np.array(p.centroid, dtype=float),
-            "planar": np.array(p.planar_moments_inertia, dtype=float),
-            "polar": float(p.polar_moment_inertia),
-            "inertia": np.array(p.inertia_tensor, dtype=float),
-            "center": np.array(p.center, dtype=float),
-        }
+        # the measures are read in an order drawn per case: none may depend on what was asked before
+        obs, order = read_shuffled({
+            "signed_area": lambda: float(p.signed_area), "area": lambda: float(p.area),
+            "perimeter": lambda: float(p.perimeter),
+            "centroid": lambda: np.array(p.centroid, dtype=float),
+            "planar": lambda: np.array(p.planar_moments_inertia, dtype=float),
+            "polar": lambda: float(p.polar_moment_inertia),
+            "inertia": lambda: np.array(p.inertia_tensor, dtype=float),
+            "center": lambda: np.array(p.center, dtype=float),
+        }, case["vertices"])
+        ctx.count("first-query:" + order[0])
     except Exception as e:
         ctx.fail("%s:raises" % case["cls"], "constructor or a measure raised %s on a valid simple polygon" % exc_kind(e),
                  case, repr(e))
@@ -151,7 +154,8 @@ def eval_case(ctx, case):
 def make_case(rng, ctx):
     kind, p2 = gen.polygon2d(rng)
     scale = 1.0 if rng.random() < 0.6 else float(2.0 ** int(rng.integers(-10, 11)))
-    plane = "xy" if rng.random() < 0.45 else "random"
+    r = rng.random()
+    plane = "xy" if r < 0.4 else ("neartilt" if r < 0.55 else "random")
     v, fr = gen.embed_polygon(rng, p2, plane=plane, scale=scale)
     tris = gen.ear_clip_exact((p2 * scale).tolist())
     orientation = "ccw" if rng.random() < 0.5 else "cw"
